@@ -2,6 +2,8 @@ import PyrexVerif.R.Geom
 import PyrexVerif.R.Uniform
 import PyrexVerif.Proofs.RayGeom
 import PyrexVerif.Proofs.UniformImage
+import PyrexVerif.Proofs.UniformAtten
+import PyrexVerif.Proofs.RaySpec
 import Mathlib.Analysis.SpecialFunctions.Trigonometric.Inverse
 import Mathlib.Analysis.SpecialFunctions.Trigonometric.Angle
 import Mathlib.Tactic.LinearCombination
@@ -73,6 +75,30 @@ theorem C02_rigid_covariance (M : GradMedium) (c s tx ty : ℝ) (h : c ^ 2 + s ^
   obtain ⟨hc, hs⟩ := C02_phi_rigid c s tx ty h p q hne
   simp only [place, rotZ, Rcos, Rsin, hc, hs]
   constructor <;> (congr 1 <;> ring)
+
+/-- the abstract medium instantiated with the closed forms of property C01 (`twin/Ray.body`): every solution of the
+Specialized tracer carries `Ray.specPathLength` / `Ray.specTof` of `(z_from, z_to, theta0, direct)` — functions that do
+not see x, y — and its directions are `Ray.emittedDir` / `Ray.receivedDir` at the azimuth of the pair; so the rigid-motion
+and same-triple theorems above apply verbatim to the model C01 is proved about -/
+theorem C02_specialized_instance (I : Ice) (root : Nat → ℝ → ℝ → ℝ → Option ℝ) (imax : ℝ → ℝ → ℝ)
+    (att : ℝ → ℝ → ℝ → Bool → ℝ → ℝ) (p q : P3) :
+    ∀ s ∈ gradScalar (specMedium I root imax att) p.z q.z (rho p q),
+      (place (phi p q) s).len = Ray.specPathLength I p.z q.z s.theta0 s.direct ∧
+      (place (phi p q) s).tof = Ray.specTof I p.z q.z s.theta0 s.direct ∧
+      ((place (phi p q) s).emitted.x = (Ray.emittedDir s.theta0 (phi p q)).x ∧
+       (place (phi p q) s).emitted.y = (Ray.emittedDir s.theta0 (phi p q)).y ∧
+       (place (phi p q) s).emitted.z = (Ray.emittedDir s.theta0 (phi p q)).z) ∧
+      ((place (phi p q) s).received.x = (Ray.receivedDir I p.z q.z s.theta0 (phi p q) s.direct).x ∧
+       (place (phi p q) s).received.y = (Ray.receivedDir I p.z q.z s.theta0 (phi p q) s.direct).y ∧
+       (place (phi p q) s).received.z = (Ray.receivedDir I p.z q.z s.theta0 (phi p q) s.direct).z) := by
+  intro s hs
+  unfold gradScalar at hs
+  simp only [List.mem_map] at hs
+  obtain ⟨g, _, rfl⟩ := hs
+  refine ⟨rfl, rfl, ⟨rfl, rfl, ?_⟩, ?_⟩
+  · simp [place, scalarSol, emitted, dirOf, Ray.emittedDir]
+  · simp only [place, scalarSol, received, thetaAt, Ray.receivedDir, Ray.theta, specMedium, sgn_eq_Rsign]
+    cases g.direct <;> simp
 
 /-! ## reciprocity -/
 
@@ -300,6 +326,35 @@ theorem C02_uniform_count (I : UIce) (m : Nat) (p q : P3) (hex : uExists I p q =
       intro k; simp [uReflected, uAllowed, ha, hb]
     rw [flatMap_length_const _ 0 hk m]; omega
 
+/-! ## attenuation of uniform / layered paths: a left Riemann sum, reciprocal up to step × variation of 1/L_att -/
+
+/-- the number of steps of a segment does not depend on the direction of travel and is at least 2 -/
+theorem C02_atten_steps_symmetric (z1 z2 dz : ℝ) : nSteps z1 z2 dz = nSteps z2 z1 dz ∧ 0 < nSteps z1 z2 dz := by
+  constructor
+  · simp only [nSteps, Rabs]; rw [abs_sub_comm]
+  · simp [nSteps]
+
+/-- the attenuation exponents (`−log` of the attenuation factor) of a path of straight segments travelled in the two
+directions differ by exactly `Σ stepᵢ · (1/L(start of segment i) − 1/L(end of segment i))`, hence by at most
+`Σ stepᵢ · |Δᵢ(1/L_att)|` ≤ (largest step) × (total variation of `1/L_att` along the path) — the tolerance the
+correspondence run uses.  `invL z = 1/L_att(z, f)` is arbitrary. -/
+theorem C02_uniform_atten_reciprocity (invL : ℝ → ℝ) (segs : List Seg) (hn : ∀ s ∈ segs, 0 < s.n)
+    (hlen : ∀ s ∈ segs, 0 ≤ s.len) :
+    attenExpPath invL segs - attenExpPath invL (revPath segs) =
+      (segs.map (fun s => s.len / s.n * (invL s.z1 - invL s.z2))).sum ∧
+    |attenExpPath invL segs - attenExpPath invL (revPath segs)| ≤
+      (segs.map (fun s => s.len / s.n * |invL s.z1 - invL s.z2|)).sum := by
+  have h := attenExpPath_swap invL segs hn
+  refine ⟨h, ?_⟩
+  rw [h]
+  refine le_trans (abs_sum_le _) (le_of_eq ?_)
+  rw [List.map_map]
+  congr 1
+  apply List.map_congr_left
+  intro s hs
+  simp only [Function.comp]
+  rw [abs_mul, abs_of_nonneg (div_nonneg (hlen s hs) (Nat.cast_nonneg _))]
+
 /-! ## non-vacuity -/
 
 /-- a rotation by 0.6/0.8 satisfies the hypothesis of the rigid-motion theorems, the pair has `rho = 5 ≠ 0` -/
@@ -328,3 +383,8 @@ example (F : ℝ → ℝ) : ∀ a b, (fun a b => F b - F a) a b = - (fun a b => 
 /-- the uniform-ice counts are about a non-empty situation -/
 example : uExists ⟨1.5, -100, 0, some 1, none⟩ ⟨0, 0, -30⟩ ⟨10, 0, -60⟩ = true := by
   simp [uExists, UIce.contains]; norm_num
+
+/-- a two-segment path with positive step counts and lengths (hypotheses of `C02_uniform_atten_reciprocity`) -/
+example : let segs : List Seg := [⟨-30, 0, 40, 32⟩, ⟨0, -60, 70, 62⟩]
+    (∀ s ∈ segs, 0 < s.n) ∧ (∀ s ∈ segs, (0 : ℝ) ≤ s.len) := by
+  simp
